@@ -4,6 +4,10 @@ import json, os
 HERE = os.path.dirname(os.path.dirname(os.path.abspath(__file__)))
 
 CHECKS = {
+ 'C19': dict(level='exploration', ref='3/C19',
+   technique='in-process fake import targets (ModuleType package tree in sys.modules) + simulated config files (VFS) with include trees; object-identity oracle through gin.get_configurable(planted object), config_str twin re-parsed in a reset world, bad-name faults with parse-context depth check',
+   text='Files enable dynamic registration, import the virtual modules in all four forms (aliases drawn, bound names colliding across files), include one another with different imports per file, and configure functions, classes, a nested class, methods (before or after the class is referenced) and reference-holding consumers through their own symbols; every configured object - reached through the planted Python object itself - must receive the bound values whichever spellings were used, references made before a method registration must deliver a configured class whose method is configured, names from another file\'s imports / missing attributes / the gin symbol / late, aliased or unknown __gin__ statements must raise the stated class and leave the parse-context stack unchanged, and config_str() re-parsed in a reset world must configure the same objects identically.',
+   note='The import system\'s finder/loader is a stub (modules planted in sys.modules); __import__, attribute resolution and all of gin are real.'),
  'C15': dict(level='exploration', ref='3/C15',
    technique='environment-fault injection (unknown configurable / unknown reference / missing module at chosen statements) across multi-parse histories with late registration and dynamic registration; statement-by-statement model of the reduced text plus a strict-parse twin world as oracle',
    text='Each parse mixes flat bindings, blocks, macro definitions and imports with known and unknown targets, references and modules under skip_unknown False / True / list / tuple / set (lists may also name registered configurables); the resulting store must equal the model of the text with exactly the covered unknown statements deleted (placeholders for covered unknown references), an uncovered unknown name must raise, the reduced texts parsed strictly in a reset world must give the same store, placeholders must raise "No configurable matching" on use and at finalize, and under dynamic registration names resolvable through the file\'s own imports are known whether or not an earlier parse registered them.',
